@@ -123,8 +123,43 @@ func extBinaryWrite(fr *frame, args []value) value {
 	if bs == nil {
 		bs = []value{}
 	}
+	// fast path for *bytes.Buffer: Buffer.Write appends to buf and clears lastRead
+	if st, ok := bufferOf(w); ok {
+		buf, _ := st[0].([]value)
+		st[0] = append(buf, bs...)
+		st[2] = int8(0)
+		return iface{}
+	}
 	res := callMethod(fr, w, "Write", bs).(tuple)
 	return res[1]
+}
+
+// bufferOf returns the field structure of w when it is a non-nil *bytes.Buffer
+// of the expected layout {buf []byte; off int; lastRead int8}.
+func bufferOf(w iface) (structure, bool) {
+	pt, ok := w.t.(*types.Pointer)
+	if !ok {
+		return nil, false
+	}
+	n, ok := pt.Elem().(*types.Named)
+	if !ok || n.Obj().Pkg() == nil || n.Obj().Pkg().Path() != "bytes" || n.Obj().Name() != "Buffer" {
+		return nil, false
+	}
+	ptr, ok := w.v.(*value)
+	if !ok || ptr == nil {
+		return nil, false
+	}
+	st, ok := (*ptr).(structure)
+	if !ok || len(st) != 3 {
+		return nil, false
+	}
+	if _, ok := st[1].(int); !ok {
+		return nil, false
+	}
+	if _, ok := st[2].(int8); !ok {
+		return nil, false
+	}
+	return st, true
 }
 
 func extBinaryRead(fr *frame, args []value) value {
@@ -141,6 +176,21 @@ func extBinaryRead(fr *frame, args []value) value {
 	n := 1
 	if k != types.Bool {
 		n = kindWidth[k] / 8
+	}
+	// fast path for *bytes.Buffer holding at least n unread bytes
+	if st, ok := bufferOf(r); ok {
+		bb, _ := st[0].([]value)
+		off := st[1].(int)
+		if len(bb)-off >= n {
+			ptr := data.v.(*value)
+			if ptr == nil {
+				raise("invalid memory address or nil pointer dereference")
+			}
+			*ptr = fromLEBytes(k, bb[off:off+n])
+			st[1] = off + n
+			st[2] = int8(-1) // opRead
+			return iface{}
+		}
 	}
 	buf := make([]value, n)
 	for i := range buf {
